@@ -108,4 +108,20 @@ func init() {
 		Outside: []string{"inputs longer than the bounds", "wall-clock time and resident memory as measured quantities (replaced by unwinding bounds and allocation-size obligations)", "PEM key/certificate files (encoding/pem and crypto/x509 are not interpreted)", "formatted text (fmt.Sprintf is opaque in these harnesses)"},
 		Assumptions: commonAssumptions,
 	}
+	c01 := func(nsec, plus, lfanew, nonEmpty, timeout int) HarnessSpec {
+		return HarnessSpec{Name: "VC01_DigestEqualsSpec", Params: map[string]int{"vsymC01Nsec": nsec, "vsymC01Plus": plus, "vsymC01Lfanew": lfanew, "vsymC01NonEmpty": nonEmpty & 1, "vsymC01NoCert": nonEmpty >> 1},
+			MaxDecisions: 1000, MaxPaths: 5000, TimeoutSec: timeout, NeedReach: []string{"wellformed", "parsed", "end"}}
+	}
+	registry["C01"] = &Property{
+		Quick:    []HarnessSpec{c01(1, 1, 0x80, 0, 300), c01(1, 0, 0x40, 0, 300), c01(2, 1, 0x80, 3, 600),
+			{Name: "VC01_MultiReadAt", Params: map[string]int{"vsymC01Parts": 2}, TimeoutSec: 300, NeedReach: []string{"end"}}},
+		Thorough: []HarnessSpec{c01(0, 1, 0x80, 0, 600), c01(1, 1, 0x80, 0, 600), c01(1, 0, 0x40, 0, 600), c01(1, 1, 0xf8, 0, 600), c01(2, 1, 0x80, 0, 3000), c01(2, 0, 0x80, 0, 3000), c01(3, 1, 0x80, 1, 7200),
+			{Name: "VC01_MultiReadAt", Params: map[string]int{"vsymC01Parts": 3}, TimeoutSec: 1800, NeedReach: []string{"end"}}},
+		Bounds: []string{"symbolic image: length <= 2^24 and every byte symbolic; SizeOfHeaders, every section's PointerToRawData/SizeOfRawData (any header order, zero-size sections, gaps), certificate directory (absent or at the end, 8-aligned), trailing data and file length mod 8 all symbolic",
+			"shape (enumerated): sections 1..2 (quick; the two-section shape with raw data in both and no certificate table) / 0..3 (thorough), PE32 and PE32+, NumberOfRvaAndSizes=16, e_lfanew in {0x40,0x80} (quick) + 0xf8 (thorough), machine AMD64",
+			"positional reader lemma: 2 (quick) / 3 parts of symbolic content and size <= 2^20 each, any offset <= 2^23 and request length <= 2^22",
+			"oracle: SHA-256 of the byte string of steps 3-14 of the Microsoft Authenticode specification, built in the harness from the raw bytes (not through debug/pe); equality decided through the hash model (functional consistency) and structural equality of the two byte strings"},
+		Outside: []string{"more sections than the bound, images of 16 MiB and more, COFF symbol tables, relocations, string-table section names, other NumberOfRvaAndSizes", "the per-position coverage statement (flip => digest changes) is implied only through the oracle equality and collision resistance of SHA-256; it is not separately decided yet"},
+		Assumptions: append([]string{"SHA-256 is modelled as an uninterpreted function with functional consistency; real SHA-256 is used on concrete inputs and in native replays"}, commonAssumptions...),
+	}
 }
